@@ -95,6 +95,8 @@ class Module:
             self.tree = ast.parse(source, filename=relpath, type_comments=True)
         except SyntaxError as e:  # fail closed
             raise AnalysisError("cannot parse %s: %s" % (relpath, e))
+        from .canon import canonicalise
+        canonicalise(self.tree)
         self.classes: Dict[str, ClassInfo] = {}
         self.functions: Dict[str, FuncInfo] = {}
         self.imports: Dict[str, str] = {}  # local name -> dotted origin
